@@ -67,7 +67,28 @@ NextTrace ==
   /\ h' = <<>> /\ viol' = {} /\ hist' = hist
   /\ TLCSet(1, tid)
 
-TraceNext == Consume \/ NextTrace
+(* invariants of a state on its own (used for states that are not reached by a logged call, *)
+(* e.g. the result of switch_device, judged against the limits of ITS device)              *)
+StateViol(st) ==
+  (IF ~Tiling(st) THEN {"C02.Tiling"} ELSE {})
+  \cup (IF \E i \in 1..Len(st.ch) : \E k \in 1..Len(st.ch[i].sl) :
+             st.ch[i].sl[k].k = "p" /\ ~PulseWithinLimits(CfgOf(st, i), st.ch[i], st.ch[i].sl[k])
+        THEN {"C01.WithinLimits"} ELSE {})
+  \cup (IF DevOf(st).maxSeq # -1 /\ \E i \in 1..Len(st.ch) : ChanDur(st.ch[i]) > DevOf(st).maxSeq
+        THEN {"C01.SeqDuration"} ELSE {})
+  \cup (IF \E i \in 1..Len(st.ch) : \E k \in 2..Len(st.ch[i].sl) :
+             ~RetargetOK(CfgOf(st, i), st.ch[i], k)
+        THEN {"C10.Retarget"} ELSE {})
+StateCheck ==
+  /\ tid <= Len(Traces) /\ l = 1 /\ Len(Traces[tid].steps) = 0
+  /\ LET v == StateViol(StripObs(Traces[tid].init)) IN
+     IF v = {} THEN TRUE ELSE PrintT("SV|" \o ToJson([t |-> tid, v |-> v]))
+  /\ tid' = tid + 1 /\ l' = 1
+  /\ s' = IF tid + 1 <= Len(Traces) THEN Traces[tid + 1].init ELSE s
+  /\ h' = <<>> /\ viol' = {} /\ hist' = hist
+  /\ TLCSet(1, tid)
+
+TraceNext == Consume \/ (NextTrace /\ Len(Traces[tid].steps) > 0) \/ StateCheck
 TraceSpec == TraceInit /\ [][TraceNext]_tvars
 
 AllConsumed == TLCGet(1) = Len(Traces)
